@@ -735,7 +735,9 @@ func coordinate(c *Check, tier string, seed int) int {
 
 	// confirm unknown violations in fresh processes
 	exit := 0
-	sort.Slice(viols, func(i, j int) bool { return len(viols[i].Choices)+len(viols[i].History) < len(viols[j].Choices)+len(viols[j].History) })
+	sort.Slice(viols, func(i, j int) bool {
+		return len(viols[i].Choices)+len(viols[i].History) < len(viols[j].Choices)+len(viols[j].History)
+	})
 	reported := 0
 	for i := range viols {
 		if reported >= 3 {
